@@ -2800,6 +2800,188 @@ theorem flex_within_minmax_layout (row : Bool) (items : List Item) (avail gap : 
     (h : resolveLine row avail gap (step3 row items 0 0) = .ok res) : ∀ s ∈ res, MainBounded row s :=
   flex_within_minmax row avail gap _ res (step3_hypBounded row items 0 0) h
 
+/-! ## Flex: what 9.7 leaves is what step 12 sees (9.7 ↔ step 12 refinement) -/
+
+/-- what no step of 9.7 touches: the style, the outer extra and the margins -/
+def mainFrame (s : St) : Item × Rat × Len × Len × Len × Len := (s.it, s.extra, s.ml, s.mr, s.mt, s.mb)
+
+/-- `main_outer_extra` is exactly what the border box adds to the main size plus the non-auto main margins
+(true of every step-3 state since repair b901ca9 counts the paddings: `initSt_frameOk`) -/
+def FrameOk (row : Bool) (fr : Item × Rat × Len × Len × Len × Len) : Prop :=
+  fr.2.1 = if row then fr.1.pl + fr.1.pr + fr.1.bl + fr.1.br + lenOr0 fr.2.2.1 + lenOr0 fr.2.2.2.1
+           else fr.1.pt + fr.1.pb + fr.1.bt + fr.1.bb + lenOr0 fr.2.2.2.2.1 + lenOr0 fr.2.2.2.2.2
+
+theorem initSt_frameOk (row : Bool) (i : Item) (px py : Rat) : FrameOk row (mainFrame (initSt row i px py)) := by
+  unfold FrameOk mainFrame initSt
+  cases row <;> cases h : usedBasis _ i <;> simp [h] <;> grind
+
+/-- every item state produced by step 3 has `main_outer_extra` = paddings + borders + non-auto main margins -/
+theorem step3_frameOk (row : Bool) :
+    ∀ (items : List Item) (px py : Rat), ∀ s ∈ step3 row items px py, FrameOk row (mainFrame s) := by
+  intro items
+  induction items with
+  | nil => intro px py s hs; simp [step3] at hs
+  | cons i rest ih =>
+    intro px py s hs
+    unfold step3 at hs
+    simp only [] at hs
+    rcases List.mem_cons.mp hs with rfl | hs
+    · exact initSt_frameOk row i px py
+    · split at hs
+      · exact ih _ _ s hs
+      · exact ih _ _ s hs
+
+private theorem pass_frame (row grow : Bool) (avail gap : Rat) (line line' : List St) (f f' : Rat)
+    (hp : pass row grow avail gap line f = .ok (line', f')) : line'.map mainFrame = line.map mainFrame := by
+  unfold pass at hp
+  split at hp
+  · cases hp
+  · rename_i l1 hdist
+    cases hp
+    unfold finishPass
+    simp only [List.map_map]
+    have h1 : l1.map mainFrame = line.map mainFrame := by
+      unfold distribute at hdist
+      split at hdist
+      · cases hdist
+        rw [List.map_map]
+        apply List.map_congr_left
+        intro s _
+        simp only [Function.comp, setBase]
+        split <;> rfl
+      · refine mapExcept_proj _ mainFrame mainFrame ?_ _ _ hdist
+        intro x y hxy
+        unfold distributeOne at hxy
+        split at hxy
+        · cases hxy; rfl
+        · split at hxy
+          · split at hxy
+            · cases hxy
+            · cases hxy; rfl
+          · split at hxy <;> (cases hxy; rfl)
+    rw [← h1]
+    apply List.map_congr_left
+    intro s _
+    simp only [Function.comp]
+    have e1 : mainFrame (fixMinMax row s) = mainFrame s := by unfold fixMinMax; split <;> rfl
+    have e2 : ∀ a (t : St), mainFrame (freezeOne a t) = mainFrame t := by
+      intro a t
+      unfold freezeOne
+      split
+      · rfl
+      · split
+        · rfl
+        · split <;> rfl
+    rw [e2, e1]
+
+private theorem loop_frame (row grow : Bool) (avail gap : Rat) :
+    ∀ (fuel : Nat) (line res : List St) (f : Rat),
+      loop row grow avail gap fuel line f = .ok res → res.map mainFrame = line.map mainFrame := by
+  intro fuel
+  induction fuel with
+  | zero =>
+    intro line res f h
+    unfold loop at h
+    cases hall : allFrozen line with
+    | true => simp [hall] at h; subst h; rfl
+    | false => simp [hall] at h
+  | succ n ih =>
+    intro line res f h
+    unfold loop at h
+    cases hall : allFrozen line with
+    | true => simp [hall] at h; subst h; rfl
+    | false =>
+      simp only [hall, Bool.false_eq_true, if_false] at h
+      cases hp : pass row grow avail gap line f with
+      | error e => simp [hp] at h
+      | ok r =>
+        obtain ⟨line', f'⟩ := r
+        simp only [hp] at h
+        rw [ih _ _ _ h, pass_frame _ _ _ _ _ _ _ _ hp]
+
+/-- 9.7 ↔ step 12: on the line returned by 9.7 (`resolveLine`), the free space that step 12 computes from the
+border boxes, non-auto margins and gaps (`lineFree`) is the free space that 9.7 accounted for (`freeSpace`), as soon
+as `main_outer_extra` is what the border box and margins add (`FrameOk`, true of every step-3 state).  So a line
+that 9.7 fills exactly (`flex_fill_exact`) leaves nothing to `justify-content`, and a line it could not fill leaves
+exactly minus the total violation (`flex_fill_all_passes`). -/
+theorem lineFree_eq_freeSpace (row : Bool) (avail gap : Rat) (line res : List St)
+    (hfr : ∀ s ∈ line, FrameOk row (mainFrame s)) (h : resolveLine row avail gap line = .ok res) :
+    lineFree row avail gap res = freeSpace avail gap res := by
+  unfold resolveLine at h
+  simp only [] at h
+  split at h
+  · cases h
+  · rename_i l hloop
+    cases h
+    have hall := loop_all_frozen row _ avail gap _ _ _ _ hloop
+    have hframe := loop_frame row _ avail gap _ _ _ _ hloop
+    unfold lineFree freeSpace
+    rw [List.length_map, sumBy_map, sumBy_map]
+    congr 2
+    apply sumBy_congr'
+    intro y hy
+    have hyf : y.frozen = true := (List.all_eq_true.mp hall) y hy
+    have hyfr : FrameOk row (mainFrame y) := by
+      have hmem : mainFrame y ∈ l.map mainFrame := List.mem_map.mpr ⟨y, hy, rfl⟩
+      rw [hframe, List.map_map] at hmem
+      obtain ⟨t, ht, heq⟩ := List.mem_map.mp hmem
+      have htf : ∀ g : Bool, mainFrame (sizeInflexible g t) = mainFrame t := by
+        intro g
+        cases g <;> (
+          unfold sizeInflexible
+          simp only [Bool.false_eq_true, if_false, if_true]
+          split <;> rfl)
+      simp only [Function.comp] at heq
+      rw [← heq, htf]
+      exact hfr t ht
+    unfold FrameOk mainFrame at hyfr
+    cases row
+    · simp only [Bool.false_eq_true, if_false] at hyfr ⊢
+      simp [St.outerMainNonAuto, St.borderHeight, St.usedMain, lenOr0, hyf, hyfr]
+      grind
+    · simp only [if_true] at hyfr ⊢
+      simp [St.outerMainNonAuto, St.borderWidth, St.usedMain, lenOr0, hyf, hyfr]
+      grind
+
+/-- steps 7 and 11 only touch the cross axis: the free space of step 12 is not affected by them -/
+theorem lineFree_cross_steps (row : Bool) (alignItems : Align) (cross mainSize gap : Rat) (line : List St) :
+    lineFree row mainSize gap ((line.map (step7 row)).map (step11 row alignItems cross)) =
+      lineFree row mainSize gap line := by
+  unfold lineFree
+  rw [List.length_map, List.length_map, sumBy_map, sumBy_map]
+  congr 2
+  apply sumBy_congr'
+  intro s _
+  have h7 : (step7 row s).outerMainNonAuto row = s.outerMainNonAuto row := by
+    unfold step7 St.outerMainNonAuto St.borderWidth St.borderHeight
+    cases row
+    · simp only [Bool.false_eq_true, if_false]
+      cases hm1 : s.mt <;> cases hm2 : s.mb <;> cases hw : s.width <;> simp [lenOr0]
+    · simp only [if_true]
+  have h11 : ∀ t : St, (step11 row alignItems cross t).outerMainNonAuto row = t.outerMainNonAuto row := by
+    intro t
+    unfold step11 St.outerMainNonAuto St.borderWidth St.borderHeight
+    cases row
+    · simp only [Bool.false_eq_true, if_false]
+      split
+      · split <;> rfl
+      · rfl
+    · simp only [if_true]
+      split
+      · split <;> rfl
+      · rfl
+  rw [h11, h7]
+
+/-- `flex_fill`, document level: on a line of step-3 states that 9.7 fills exactly, step 12 finds no free space
+left: items, paddings, borders, margins and gaps fill the container's main size. -/
+theorem flex_line_fills_main (row : Bool) (alignItems : Align) (cross avail gap : Rat) (items : List Item)
+    (res : List St) (h : resolveLine row avail gap (step3 row items 0 0) = .ok res)
+    (hfill : freeSpace avail gap res = 0) :
+    lineFree row avail gap ((res.map (step7 row)).map (step11 row alignItems cross)) = 0 := by
+  rw [lineFree_cross_steps, lineFree_eq_freeSpace row avail gap _ res ?_ h, hfill]
+  intro s hs
+  exact step3_frameOk row items 0 0 s hs
+
 /-! ## Flex: step 9, `align-content: stretch` -/
 
 private theorem sumBy_cross_add (e : Rat) (ls : List Line) :
@@ -2981,6 +3163,14 @@ example : ((exLine [exItem 0 0 0 1 45]).map fun s => { s with ml := none }).all 
     (∀ s : St, s.ml = none → ¬ noAutoCross false s) := by
   refine ⟨by decide +kernel, ?_⟩
   intro s h; simp [noAutoCross, h]
+
+-- lineFree_eq_freeSpace / flex_line_fills_main (the repair b901ca9 at theorem level): two `flex: 1 1 0; padding: 0 10px`
+-- items in 100px: 9.7 fills the line (30 + 30 of content, 40 of paddings) and step 12 finds nothing left
+example :
+    let items := [{ exItem 0 0 1 1 0 with pl := 10, pr := 10 }, { exItem 1 0 1 1 0 with pl := 10, pr := 10 }]
+    (resolveLine true 100 0 (step3 true items 0 0)).toOption.map
+      (fun r => (freeSpace 100 0 r, lineFree true 100 0 r, r.map (·.target))) = some (0, 0, [30, 30]) := by
+  decide +kernel
 
 -- stretch_lines_fill: two lines of 10 and 30 in a 100px high wrapping row container with a 4px row gap
 example :
